@@ -402,6 +402,21 @@ fn deallocate_list(to_deallocate_list: LinkedList, state: &State) {
 
     let _dropping_guard = replace_state_field!(dropping, true, state);
 
+    // Weak pointers to the objects in to_deallocate_list cannot be upgraded from now on
+    struct DroppingListGuard<'a> {
+        state: &'a State,
+    }
+
+    impl<'a> Drop for DroppingListGuard<'a> {
+        #[inline]
+        fn drop(&mut self) {
+            self.state.set_dropping_list(false);
+        }
+    }
+
+    state.set_dropping_list(true);
+    let _dropping_list_guard = DroppingListGuard { state };
+
     // Redefine to_deallocate_list with the ToDropList wrapper
     let to_deallocate_list = ToDropList {
         list: ManuallyDrop::new(to_deallocate_list),
